@@ -160,7 +160,9 @@ def run(tier: str, seed: int) -> Report:
     rep.extra["unconstructible_kinds"] = failed
     rep.extra["skipped_placeholder_classes"] = skipped
     rnd = random.Random(seed)
-    active = reqs if deep else [r for r in reqs if r.base]
+    # quick: the base variant of every kind, plus the multi-identifier ReadDataByIdentifier variants (their
+    # echo rule -- the FIRST identifier -- differs from "any requested identifier")
+    active = reqs if deep else [r for r in reqs if r.base or r.kind == "ReadDataByIdentifierRequest"]
     pool_src = reqs if deep else active
     pool: list[bytes] = []
     for r in pool_src:
